@@ -45,7 +45,8 @@ fn owns_c05(op: &Op) -> bool {
 }
 fn owns_c06(op: &Op) -> bool {
     use Op::*;
-    matches!(op, Index | Linefeed | ReverseIndex | InsertLines(_) | DeleteLines(_) | SetMargins(..))
+    // Draw: only where it scrolls (autowrap at the bottom margin), decided per step
+    matches!(op, Index | Linefeed | ReverseIndex | InsertLines(_) | DeleteLines(_) | SetMargins(..) | Draw(_))
 }
 fn owns_c07(op: &Op) -> bool {
     use Op::*;
@@ -108,8 +109,8 @@ pub const STEP_PROPS: &[StepProp] = &[
         focus: &[Focus::Text, Focus::Text, Focus::Any, Focus::Modes, Focus::Charset],
         owns: owns_c04,
         rule: "one case = one seeded wiring-Q run (text/editor sessions, Operator draw() calls with multi-character strings, mode toggles, SO/SI, renditions, Renderer paints and Resizer steps before draws); every draw event is judged by step relation DRAW from the real pre-state (affected rows, cursor, nothing else changed). Non-trivial = at least one draw judged; distinct = distinct hash of (steps, geometry, mode)",
-        quick_runs: 60_000,
-        thorough_runs: 3_000_000,
+        quick_runs: 400_000,
+        thorough_runs: 10_000_000,
         tune: tune_c04,
     },
     StepProp {
@@ -117,8 +118,8 @@ pub const STEP_PROPS: &[StepProp] = &[
         focus: &[Focus::Movement],
         owns: owns_c05,
         rule: "one case = one seeded wiring-Q run; CUU/CUD/CUF/CUB/CNL/CPL/HPR/VPR/CHA/VPA/CUP/HVP/BS/CR through the parser (raw csi/basic dispatch calls, lowered through the documented table) and through the Operator, parameters {absent,0,1,2,..size+2,9999}, with/without margins and DECOM, cursor anywhere incl. pending wrap; judged by step relation MOVE, every other component unchanged. Distinct = distinct (steps, geometry) hash; reach_sets.c05_tuples counts distinct (op, parameter class, cursor class, region class, DECOM)",
-        quick_runs: 60_000,
-        thorough_runs: 3_000_000,
+        quick_runs: 400_000,
+        thorough_runs: 10_000_000,
         tune: no_tune,
     },
     StepProp {
@@ -126,8 +127,8 @@ pub const STEP_PROPS: &[StepProp] = &[
         focus: &[Focus::Scroll],
         owns: owns_c06,
         rule: "one case = one seeded wiring-Q run over distinct-marker fills with never-written rows, every region, cursor inside/on/outside margins, counts {absent,0,1,..lines+1,9999}, IND/LF/VT/FF/NEL/RI, IL/DL, DECSTBM, with Renderer paints and Resizer steps before the operation; judged by step relations INDEX/RINDEX/LINEFEED/IL/DL/STBM",
-        quick_runs: 60_000,
-        thorough_runs: 3_000_000,
+        quick_runs: 400_000,
+        thorough_runs: 10_000_000,
         tune: tune_editor,
     },
     StepProp {
@@ -135,8 +136,8 @@ pub const STEP_PROPS: &[StepProp] = &[
         focus: &[Focus::Erase],
         owns: owns_c07,
         rule: "one case = one seeded wiring-Q run over marker fills with coloured renditions; ED/EL selectors {absent,0..5,9999}, ECH counts {absent,0,1,..columns+1,9999}, cursor everywhere incl. pending wrap, with margins/DECOM; judged by step relations ED/EL/ECH",
-        quick_runs: 60_000,
-        thorough_runs: 3_000_000,
+        quick_runs: 400_000,
+        thorough_runs: 10_000_000,
         tune: tune_editor,
     },
     StepProp {
@@ -144,8 +145,8 @@ pub const STEP_PROPS: &[StepProp] = &[
         focus: &[Focus::Sgr],
         owns: owns_c08,
         rule: "one case = one seeded wiring-Q run; CSI ... m through the parser and select_graphic_rendition through the Operator: single codes 0..=9999, pairs/triples, all 38/48 forms incl. truncated tails and out-of-range values; judged by step relation SGR (own fold, own palette computation), grid unchanged; reach_sets report codes and palette indices hit",
-        quick_runs: 60_000,
-        thorough_runs: 3_000_000,
+        quick_runs: 400_000,
+        thorough_runs: 10_000_000,
         tune: tune_c08,
     },
     StepProp {
@@ -153,8 +154,8 @@ pub const STEP_PROPS: &[StepProp] = &[
         focus: &[Focus::Modes],
         owns: owns_c12,
         rule: "one case = one seeded wiring-Q run; SM/RM with mode numbers 0..=9999 x {private, ANSI}, lists of 1-3, repeated set/set and reset/reset, both Operator spellings, interleaved with DECSC/DECRC, resizes and drawing; judged by step relations SM/RM (mode set plus per-mode cursor, geometry, cells, rendition, hidden flag); reach_sets report distinct mode keys hit",
-        quick_runs: 60_000,
-        thorough_runs: 3_000_000,
+        quick_runs: 400_000,
+        thorough_runs: 10_000_000,
         tune: no_tune,
     },
     StepProp {
@@ -162,8 +163,8 @@ pub const STEP_PROPS: &[StepProp] = &[
         focus: &[Focus::InsDel],
         owns: owns_c13,
         rule: "one case = one seeded wiring-Q run over marker rows; ICH/DCH with counts {absent,0,1,..columns+1,9999} at every column incl. pending wrap, never-written rows, ICH/DCH/IRM-draw/EL interleavings on one row followed by paints and grow resizes; judged by step relations ICH/DCH (list splice on the visible row, cursor and other rows unchanged)",
-        quick_runs: 60_000,
-        thorough_runs: 3_000_000,
+        quick_runs: 400_000,
+        thorough_runs: 10_000_000,
         tune: tune_editor,
     },
     StepProp {
@@ -171,8 +172,8 @@ pub const STEP_PROPS: &[StepProp] = &[
         focus: &[Focus::SaveRestore],
         owns: owns_c14,
         rule: "one case = one seeded wiring-Q run; save^k ... restore^m around movement, SGR, SO/SI, designations, DECOM/DECAWM changes, margins and resizes; judged by step relations SAVE/RESTORE (LIFO, clamping, one-way re-enabling of DECOM/DECAWM, empty-stack behaviour, grid/margins/tab stops unchanged)",
-        quick_runs: 60_000,
-        thorough_runs: 3_000_000,
+        quick_runs: 400_000,
+        thorough_runs: 10_000_000,
         tune: no_tune,
     },
     StepProp {
@@ -180,8 +181,8 @@ pub const STEP_PROPS: &[StepProp] = &[
         focus: &[Focus::Resize, Focus::Resize, Focus::Resize, Focus::InsDel, Focus::Scroll, Focus::Erase],
         owns: owns_c16,
         rule: "one case = one seeded wiring-Q run with 1-4 Resizer steps at arbitrary event boundaries of marker-filled histories (margins, DECOM, pending-wrap cursor, wide characters on the cut column, hidden cells); targets 1..=max+2 in both dimensions, shrink-then-grow sequences; judged by step relation RESIZE (crop/extend, rows dropped from the top, added area blank, margins reset, cursor inside, all rows dirty, same size = identical snapshot)",
-        quick_runs: 60_000,
-        thorough_runs: 3_000_000,
+        quick_runs: 400_000,
+        thorough_runs: 10_000_000,
         tune: tune_c16,
     },
     StepProp {
@@ -189,8 +190,8 @@ pub const STEP_PROPS: &[StepProp] = &[
         focus: &[Focus::Tabs],
         owns: owns_c18,
         rule: "one case = one seeded wiring-Q run; HTS/TBC/HT sequences on widths 1..=140 with the cursor at every column incl. pending wrap, resizes and DECCOLM between setting a stop and using it; judged by step relations HTS/TBC/HT and the RIS default stops {8,16,..} < columns",
-        quick_runs: 60_000,
-        thorough_runs: 3_000_000,
+        quick_runs: 400_000,
+        thorough_runs: 10_000_000,
         tune: no_tune,
     },
     StepProp {
@@ -198,8 +199,8 @@ pub const STEP_PROPS: &[StepProp] = &[
         focus: &[Focus::Charset],
         owns: owns_c20,
         rule: "one case = one seeded wiring-Q run (mostly 8-bit mode, charset sweeps, SO/SI, designators incl. unsupported finals, DECSC/DECRC, RIS, Operator define_charset/shift/draw); DEFINE/SHIFT judged by step relations against the reference tables; each draw judged by a translation twin: the real draw(text) must equal draw(reference-translated text) on a copy of the pre-state screen whose G0/G1 are identity; reach_sets.c20_table_byte counts (table, byte) pairs hit out of 1024",
-        quick_runs: 60_000,
-        thorough_runs: 3_000_000,
+        quick_runs: 400_000,
+        thorough_runs: 10_000_000,
         tune: tune_c20,
     },
 ];
@@ -228,8 +229,8 @@ struct StepObs<'a> {
     /// after each of them and draws replaced by draws of the reference translation
     twin: Option<Screen>,
     twin_prev: Option<Snapshot>,
-    /// C20: charset-related events the parser delivered (Feeder actor only), in order
-    parser_charset_events: Vec<Op>,
+    /// owned operations as the parser delivered them (Feeder actor only), lowered, in order
+    parser_events: Vec<Op>,
     /// C14: the history oracle - the stack of cursor states as DECSC saw them. Only DECSC and
     /// DECRC may change the real stack; every other operation (resize included, which pushes
     /// and pops a savepoint itself) must leave it exactly as it was.
@@ -379,73 +380,118 @@ impl<'a> StepObs<'a> {
     }
 }
 
-/// C20, parser path: in 8-bit mode SO/SI and the designators must reach the listener, in UTF-8
-/// mode they must not. Expected events come from the reference recogniser run over the
-/// reference decoding of the delivered bytes; runs that leave the documented grammar are skipped.
-fn c20_parser_path(trace: &Trace, delivered: &[Op], cov: &mut Coverage) -> Result<(), Violation> {
-    use crate::spec::recog::{Recog, RefDecoder};
+/// Parser path (all step properties, C15): the wiring-Q event queue holds what the real parser
+/// delivered; the reference recogniser (DESIGN 8.1), run over the reference decoding of the
+/// delivered bytes, says what it must have delivered. Both lists are filtered to the operations
+/// the property owns and compared. This is what makes a step property sensitive to recogniser
+/// state leaking from one sequence into the next (parameters, the private flag, a dropped or
+/// duplicated event): the step relations alone judge whatever call arrives, faithfully.
+/// Runs whose input leaves the documented grammar, contains ill-formed UTF-8 (C11's business) or
+/// switches mode with a pending tail are not judged.
+pub fn parser_path(
+    prop: &str,
+    trace: &Trace,
+    delivered: &[Op],
+    owns: fn(&Op) -> bool,
+    cov: &mut Coverage,
+) -> Result<(), Violation> {
+    use crate::spec::recog::{normalise, Recog, RefDecoder};
     use crate::trace::{Front, Step};
-    let mut rf = Recog::new(trace.utf8);
-    let mut dec = RefDecoder::default();
-    for s in &trace.steps {
-        match s {
-            Step::Feed(b) => {
-                let text: String = match (trace.front, rf.utf8) {
-                    (Front::Chars, _) => String::from_utf8_lossy(b).into_owned(),
-                    (Front::Bytes, true) => dec.feed(b),
-                    (Front::Bytes, false) => b.iter().map(|x| *x as char).collect(),
-                };
-                rf.feed_str(&text);
-            }
-            Step::Charset(c) => match c.as_str() {
-                "@" => {
-                    rf.utf8 = false;
-                    if !dec.pending.is_empty() {
-                        // drop-or-flush is unspecified: do not judge this run
-                        cov.hit("stop_switch_with_pending_tail");
-                        return Ok(());
+    let mut variants: Vec<Vec<Op>> = Vec::new();
+    for strip_bom in [false, true] {
+        let mut rf = Recog::new(trace.utf8);
+        let mut dec = RefDecoder::default();
+        let mut fresh = true;
+        let mut seg_bytes: Vec<u8> = Vec::new();
+        let mut bom_seen = false;
+        for s in &trace.steps {
+            match s {
+                Step::Feed(b) => {
+                    let mut text: String = match (trace.front, rf.utf8) {
+                        (Front::Chars, _) => String::from_utf8_lossy(b).into_owned(),
+                        (Front::Bytes, true) => {
+                            seg_bytes.extend_from_slice(b);
+                            dec.feed(b)
+                        }
+                        (Front::Bytes, false) => b.iter().map(|x| *x as char).collect(),
+                    };
+                    if trace.front == Front::Bytes && rf.utf8 && fresh && !text.is_empty() {
+                        fresh = false;
+                        if text.starts_with('\u{feff}') {
+                            bom_seen = true;
+                            if strip_bom {
+                                text = text.chars().skip(1).collect();
+                            }
+                        }
                     }
+                    rf.feed_str(&text);
                 }
-                "G" | "8" => rf.utf8 = true,
+                Step::Charset(c) => match c.as_str() {
+                    "@" => {
+                        if !dec.pending.is_empty() {
+                            cov.hit("stop_parser_path_switch_with_pending_tail");
+                            return Ok(());
+                        }
+                        rf.utf8 = false;
+                        fresh = true;
+                        if !seg_ok(&seg_bytes) {
+                            cov.hit("stop_parser_path_ill_formed_utf8");
+                            return Ok(());
+                        }
+                        seg_bytes.clear();
+                    }
+                    "G" | "8" => rf.utf8 = true,
+                    _ => {}
+                },
                 _ => {}
-            },
-            _ => {}
+            }
+            if rf.stopped_at.is_some() {
+                cov.hit("stop_parser_path_unspecified_grammar");
+                return Ok(());
+            }
         }
-        if rf.stopped_at.is_some() {
-            cov.hit("stop_unspecified_grammar");
+        if !seg_ok(&seg_bytes) {
+            cov.hit("stop_parser_path_ill_formed_utf8");
             return Ok(());
         }
+        let want: Vec<Op> = normalise(&rf.events.iter().filter(|e| owns(e)).cloned().collect::<Vec<_>>());
+        variants.push(want);
+        if !bom_seen {
+            break;
+        }
     }
-    let want: Vec<Op> = rf
-        .events
-        .iter()
-        .filter(|e| matches!(e, Op::DefineCharset(..) | Op::ShiftIn | Op::ShiftOut))
-        .cloned()
-        .collect();
-    cov.add("parser_path_charset_events_expected", want.len() as u64);
-    if trace.utf8 {
-        cov.hit("parser_path_runs_utf8");
-    } else {
-        cov.hit("parser_path_runs_8bit");
+    let got = normalise(delivered);
+    cov.hit("parser_path_runs_judged");
+    cov.add("parser_path_events_expected", variants[0].len() as u64);
+    if variants.iter().any(|v| *v == got) {
+        return Ok(());
     }
-    if want != delivered {
-        let i = (0..want.len().max(delivered.len())).find(|i| want.get(*i) != delivered.get(*i)).unwrap_or(0);
-        return Err(Violation::new(
-            "C20",
-            "C20/parser_path/charset_events",
-            format!(
-                "charset event #{} through the parser: expected {:?}, delivered {:?} ({} expected, {} delivered; initial mode {})",
-                i,
-                want.get(i),
-                delivered.get(i),
-                want.len(),
-                delivered.len(),
-                if trace.utf8 { "UTF-8" } else { "8-bit" }
-            ),
-            i as u64,
-        ));
+    let want = &variants[0];
+    let i = (0..want.len().max(got.len())).find(|i| want.get(*i) != got.get(*i)).unwrap_or(0);
+    let tag = want.get(i).or(got.get(i)).map(|o| o.name()).unwrap_or("none");
+    Err(Violation::new(
+        prop,
+        format!("{}/parser_path/{}", prop, tag),
+        format!(
+            "event #{} of the operations this property owns, as delivered by the parser: the documented grammar gives {:?}, the parser delivered {:?} ({} expected, {} delivered; initial mode {})",
+            i,
+            want.get(i),
+            got.get(i),
+            want.len(),
+            got.len(),
+            if trace.utf8 { "UTF-8" } else { "8-bit" }
+        ),
+        i as u64,
+    ))
+}
+
+/// a UTF-8 mode segment is judged only if it is well-formed (an incomplete tail at its very end
+/// is held back by any conforming decoder and is fine)
+fn seg_ok(bytes: &[u8]) -> bool {
+    match std::str::from_utf8(bytes) {
+        Ok(_) => true,
+        Err(e) => e.error_len().is_none(),
     }
-    Ok(())
 }
 
 fn save_snaps(s: &Screen) -> Vec<crate::snap::SaveSnap> {
@@ -573,11 +619,28 @@ impl<'a> Observer for StepObs<'a> {
         if !(self.sp.owns)(&low) {
             return Ok(());
         }
-        if self.sp.id == "C20"
-            && ctx.actor == Actor::Feeder
-            && matches!(low, Op::DefineCharset(..) | Op::ShiftIn | Op::ShiftOut)
-        {
-            self.parser_charset_events.push(low.clone());
+        if ctx.actor == Actor::Feeder {
+            self.parser_events.push(low.clone());
+        }
+        // C06 owns draw only where it scrolls (autowrap at the bottom margin)
+        if self.sp.id == "C06" {
+            if let Op::Draw(t) = &low {
+                // cheap necessary condition first: the text must be able to reach the bottom margin
+                let p = ctx.pre;
+                let reach = p.x as u64 + 2 * t.chars().count() as u64;
+                let can_scroll = p.has(memterm::modes::DECAWM)
+                    && reach > p.columns as u64
+                    && p.y as u64 + reach / (p.columns.max(1) as u64) >= p.region().1 as u64
+                    && p.y <= p.region().1;
+                if !can_scroll {
+                    return Ok(());
+                }
+                let e = model::expect(ctx.pre, ctx.op);
+                if !e.scrolled {
+                    return Ok(());
+                }
+                self.cov.hit("probe_autowrap_scroll_judged");
+            }
         }
         self.judged += 1;
         self.reach(&low, ctx.pre);
@@ -664,13 +727,11 @@ impl Property for StepProp {
         gen::trace(self.id, seed, index, &p)
     }
     fn check(&self, trace: &Trace, cov: &mut Coverage) -> Result<(), Violation> {
-        let mut obs = StepObs { sp: self, cov, judged: 0, twin: None, twin_prev: None, parser_charset_events: vec![], shadow: vec![] };
+        let mut obs = StepObs { sp: self, cov, judged: 0, twin: None, twin_prev: None, parser_events: vec![], shadow: vec![] };
         let stats = exec::run(trace, &mut obs)?;
         let judged = obs.judged;
-        let delivered = std::mem::take(&mut obs.parser_charset_events);
-        if self.id == "C20" {
-            c20_parser_path(trace, &delivered, cov)?;
-        }
+        let delivered = std::mem::take(&mut obs.parser_events);
+        parser_path(self.id, trace, &delivered, self.owns, cov)?;
         cov.add("atomic_steps", stats.ops);
         cov.add("operations_judged", judged);
         cov.add("bytes_fed", stats.bytes);
